@@ -69,6 +69,7 @@ def confirm(prop, case, group, work, bad, plan):
         "crate": group.crate, "variant": group.variant, "rustflags": group.rustflags, "features": group.features,
         "no_default": group.no_default,
         "case": case.sample, "failed_checks": [{"desc": b["desc"], "loc": b["loc"]} for b in bad],
+        "sentinel": any(b.get("name") == "cover" for b in bad),
         "solver_assignment": pb["values"] if pb else None,
         "playback_test": pb["test_code"] if pb else None,
         "how_to_replay": "./check %s --replay %s" % (prop, path),
